@@ -371,27 +371,76 @@ def gen_history(rng: random.Random, index: int) -> dict:
 
 def gen_cover(rng: random.Random, index: int) -> dict:
     layout = rng.choice(("updown+stop", "updown+step", "updown", "updown+stop+position", "position", "updown+position"))
-    n = rng.randint(3, 9)
+    pattern = rng.choice(("random", "random", "random", "second_command_before_auto_stop", "bus_move_after_finished_travel"))
+    initial = rng.choice((None, 0, 100, rng.randint(0, 100), rng.randint(0, 100)))
     ops = []
-    for _ in range(n):
-        kind = rng.choice(("set_up", "set_down", "stop", "set_position", "report", "report", "bus_updown", "bus_stop", "set_position"))
-        arg = None
-        if kind in ("set_position", "report"):
-            arg = rng.choice((0, 100, rng.randint(0, 100)))
-        elif kind == "bus_updown":
-            arg = rng.randint(0, 1)
-        gap = rng.choice((0.0, 0.0, EPS, 0.5, 1.0, q(rng.uniform(0, 30)), q(rng.uniform(0, 3))))
-        ops.append({"op": kind, "arg": arg, "gap": gap})
+    gaps = (0.0, 0.0, EPS, 0.5, 1.0, "half", "quarter", "before_arrival", "to_arrival", "after_arrival", "after_arrival")
+    if pattern == "second_command_before_auto_stop":
+        layout = rng.choice(("updown+stop", "updown+step"))
+        initial = rng.choice((0, 100, rng.randint(0, 100)))
+        mid = rng.choice([p for p in (25, 50, 75, rng.randint(1, 99)) if p != initial] or [50])
+        ops.append({"op": "set_position", "arg": mid, "gap": rng.choice(("quarter", "half", EPS, 0.0))})
+        second = rng.choice(("set_position", "set_position", "set_up", "set_down", "bus_updown"))
+        ops.append({"op": second, "arg": rng.choice((0, 100)) if second == "set_position" else (rng.randint(0, 1) if second == "bus_updown" else None),
+                    "gap": rng.choice(("half", "after_arrival", "quarter"))})
+        ops.append({"op": rng.choice(("report", "set_position", "stop")), "arg": rng.randint(0, 100), "gap": "after_arrival"})
+    elif pattern == "bus_move_after_finished_travel":
+        layout = rng.choice(("updown+stop", "updown+step", "updown", "updown+stop+position", "updown+position"))
+        initial = rng.choice((0, 100, rng.randint(0, 100)))
+        mid = rng.choice([p for p in (50, rng.randint(1, 99), rng.randint(1, 99)) if p != initial] or [50])
+        ops.append({"op": "set_position", "arg": mid, "gap": rng.choice(("after_arrival", "to_arrival"))})
+        # a long telegram from the bus in the SAME direction as the finished travel (and sometimes the other one)
+        ops.append({"op": "bus_move", "arg": rng.choice(("same", "same", "same", "other")), "gap": rng.choice(("half", "after_arrival", "quarter"))})
+        ops.append({"op": rng.choice(("bus_stop", "stop", "report", "set_position")), "arg": rng.randint(0, 100), "gap": "after_arrival"})
+    else:
+        for _ in range(rng.randint(3, 9)):
+            kind = rng.choice(("set_up", "set_down", "stop", "set_position", "set_position", "report", "report", "bus_updown", "bus_updown", "bus_stop"))
+            arg = None
+            if kind in ("set_position", "report"):
+                arg = rng.choice((0, 100, rng.randint(0, 100)))
+            elif kind == "bus_updown":
+                arg = rng.randint(0, 1)
+            gap = rng.choice(gaps + (q(rng.uniform(0, 30)), q(rng.uniform(0, 3))))
+            ops.append({"op": kind, "arg": arg, "gap": gap})
     return {
         "index": index,
         "layout": layout,
+        "pattern": pattern,
         "tt_down": 100.0 * rng.randint(1, 80) / 2 ** rng.randint(1, 5),
         "tt_up": 100.0 * rng.randint(1, 80) / 2 ** rng.randint(1, 5),
         "invert_updown": rng.random() < 0.3,
         "invert_position": rng.random() < 0.3,
-        "initial": rng.choice((None, 0, 100, rng.randint(0, 100))),
+        "initial": initial,
         "ops": ops,
     }
+
+
+class CoverModel(Model):
+    """The rational travel model of part A, driven by the Cover command / telegram stream."""
+
+    def __init__(self, tt_down: float, tt_up: float) -> None:
+        super().__init__(tt_down, tt_up)
+        self.judged = True  # False once a situation arises whose outcome the statement does not fix
+        self.stop_expected: Fraction | None = None  # auto-stop of the CURRENT travel
+        self.explained: list[float] = []  # instants at which an own stop telegram is explained
+
+    def arrival(self) -> Fraction | None:
+        if self.L is None or self.T is None or self.L == self.T:
+            return None
+        return self.t0 + self.travel_time(self.L, self.T)
+
+    def moving(self, now: float) -> bool:
+        a = self.arrival()
+        return a is not None and Fraction(now) < a
+
+    def start(self, now: float, est: int, target: int) -> None:
+        self.L, self.T, self.t0 = est, target, Fraction(now)
+        self.cmd_dir = 1 if target > est else -1
+        self.rest_report = False
+
+    def rest(self, pos: int) -> None:
+        self.L = self.T = pos
+        self.rest_report = False
 
 
 def run_cover(ctx, spec: dict) -> str | None:
@@ -402,25 +451,41 @@ def run_cover(ctx, spec: dict) -> str | None:
     found: list[str] = []
     trace: list = []
     cb_errors: list = []
+    lay = spec["layout"]
+    has_updown, has_stop, has_step, has_pos = "updown" in lay, "stop" in lay, "step" in lay, "position" in lay
+    supports_stop = has_stop or has_step
+    m = CoverModel(spec["tt_down"], spec["tt_up"])
+    seg = {"last": None}
+    wire_seen = [0]
 
     def viol(mech: str, msg: str, extra: dict | None = None) -> None:
-        w = {"kind": "cover", "spec": spec, "trace": trace[-12:]}
+        w = {"kind": "cover", "spec": spec, "trace": trace[-14:], "wire": [s.as_tuple() for s in h.iface.sent][-8:],
+             "model": {"L": m.L, "T": m.T, "t0": float(m.t0), "stop_expected": None if m.stop_expected is None else float(m.stop_expected)}}
         if extra:
             w.update(extra)
         ctx.violation(mech, w, msg)
         found.append(mech)
 
+    def due_auto_stop(now: float) -> None:
+        """The configured auto-stop of the current travel fires at its arrival instant."""
+        if m.stop_expected is not None and Fraction(now) >= m.stop_expected:
+            m.explained.append(float(m.stop_expected))
+            if m.T is not None:
+                m.rest(m.T)
+            m.stop_expected = None
+
     def check(cover, tag: str) -> bool:
         ctx.ev()
         ctx.count("cover_queries")
+        now = h.now()
         try:
             est = cover.current_position()
             for name in ("is_traveling", "position_reached", "is_open", "is_closed", "is_opening", "is_closing"):
                 getattr(cover, name)()
         except Exception as exc:  # noqa: BLE001
-            viol(f"cover-query-raises-{type(exc).__name__}", f"Cover query raised {exc!r} at {h.now()} ({tag})", {"exception": repr(exc)})
+            viol(f"cover-query-raises-{type(exc).__name__}", f"Cover query raised {exc!r} at {now} ({tag})", {"exception": repr(exc)})
             return False
-        trace.append(("q", h.now(), est))
+        trace.append(("q", now, est))
         if est is not None and (not isinstance(est, int) or not 0 <= est <= 100):
             viol("cover-estimate-out-of-range", f"Cover.current_position() = {est!r}")
             return False
@@ -435,19 +500,71 @@ def run_cover(ctx, spec: dict) -> str | None:
         for e in h.loop.exceptions:
             viol(f"cover-loop-exception-{e['type']}", f"event loop exception {e['exception']}", {"loop": e})
             return False
+        # ---- own stop telegrams must be explained -------------------------------------
+        due_auto_stop(now)
+        new = h.iface.sent[wire_seen[0]:]
+        wire_seen[0] = len(h.iface.sent)
+        for s in new:
+            if str(s.dst) in ("1/0/2", "1/0/3") and s.kind == "write":
+                ctx.count("cover_own_stop_telegrams")
+                if m.judged and not any(abs(s.time - x) < 1e-6 for x in m.explained):
+                    viol("cover-stop-telegram-not-explained-by-a-command-or-the-auto-stop-of-the-current-travel",
+                         f"own stop/step telegram at {s.time} ({s.dst}); explained instants: {m.explained[-4:]}", {"at": s.time})
+                    return False
+        if not m.judged:
+            ctx.count("cover_queries_not_judged_after_ambiguous_situation")
+            return True
+        # ---- estimate against the rational model --------------------------------------
+        p, elapsed = m.exact(now)
+        if p is None:
+            if est is not None:
+                viol("cover-estimate-without-any-known-position", f"estimate {est} although no position is known ({tag})")
+                return False
+            return True
+        ctx.count("cover_queries_judged")
+        if est is None:
+            viol("cover-estimate-unknown-although-position-known", f"estimate None, reference {float(p)} ({tag})")
+            return False
+        if m.T is None or m.L == m.T:
+            if est != m.L:
+                viol("cover-estimate-differs-from-resting-position", f"estimate {est}, the cover rests at {m.L} ({tag})")
+                return False
+            return True
+        lo, hi = min(m.L, m.T), max(m.L, m.T)
+        if not lo <= est <= hi:
+            viol("cover-estimate-outside-last-known-and-target", f"estimate {est} outside [{lo},{hi}] ({tag})")
+            return False
+        if seg["last"] is not None and abs(m.T - est) > abs(m.T - seg["last"]):
+            viol("cover-estimate-moves-away-from-target", f"estimate went from {seg['last']} to {est}, target {m.T} ({tag})")
+            return False
+        seg["last"] = est
+        if m.overshoot() and est == m.T:
+            return True
+        if elapsed:
+            ctx.count("cover_queries_after_travel_time")
+            if est != m.T:
+                viol("cover-target-not-reached-after-travel-time", f"travel from {m.L} to {m.T} should be over, estimate is {est} ({tag})")
+                return False
+            return True
+        ctx.count("cover_queries_mid_travel")
+        if abs(est - p) >= 1 + Fraction(1, 10**9):
+            viol("cover-estimate-more-than-one-unit-from-linear-position", f"estimate {est}, exact linear position {float(p):.5f} (from {m.L} to {m.T}) ({tag})")
+            return False
+        if est == m.T:
+            viol("cover-target-reported-before-travel-time-elapsed", f"estimate equals target {m.T}, exact position {float(p):.5f} ({tag})")
+            return False
         return True
 
     async def scenario() -> None:
         await h.start()
-        lay = spec["layout"]
         kw = {}
-        if "updown" in lay:
+        if has_updown:
             kw["group_address_long"] = "1/0/1"
-        if "stop" in lay:
+        if has_stop:
             kw["group_address_stop"] = "1/0/2"
-        if "step" in lay:
+        if has_step:
             kw["group_address_short"] = "1/0/3"
-        if "position" in lay:
+        if has_pos:
             kw["group_address_position"] = "1/0/4"
         kw["group_address_position_state"] = "1/0/5"
 
@@ -466,11 +583,38 @@ def run_cover(ctx, spec: dict) -> str | None:
         if spec["initial"] is not None:
             h.incoming_write("1/0/5", DPTArray(cover.position_current.to_knx(spec["initial"]).value))
             await h.settle()
+            m.rest(spec["initial"])
         if not check(cover, "init"):
             return
+
+        def begin_travel(now: float, pre, target: int, est_after) -> None:
+            m.stop_expected = None
+            seg["last"] = None
+            if pre is None:
+                # nothing known: the calculator assumes the cover is already there (or stays unknown)
+                if est_after == target:
+                    m.rest(target)
+                elif est_after is not None:
+                    m.judged = False
+                return
+            m.start(now, pre, target)
+
         for op in spec["ops"]:
             name, arg = op["op"], op["arg"]
-            trace.append((name, arg, h.now()))
+            now = h.now()
+            due_auto_stop(now)
+            try:
+                pre = cover.current_position()
+            except Exception as exc:  # noqa: BLE001
+                viol(f"cover-query-raises-{type(exc).__name__}", f"Cover query raised {exc!r} before {name}", {"exception": repr(exc)})
+                return
+            was_moving = m.moving(now)
+            if name == "bus_move":  # resolved against the model: same / other direction as the last travel
+                d = m.cmd_dir or 1
+                up = (d < 0) if arg == "same" else (d > 0)
+                name, arg = "bus_updown", (0 if up else 1) ^ int(spec["invert_updown"])
+                ctx.count("cover_bus_move_after_travel_" + op["arg"])
+            trace.append((name, arg, now))
             ctx.count("cover_op_" + name)
             try:
                 if name == "set_up":
@@ -484,28 +628,105 @@ def run_cover(ctx, spec: dict) -> str | None:
                 elif name == "report":
                     h.incoming_write("1/0/5", DPTArray(cover.position_current.to_knx(arg).value))
                 elif name == "bus_updown":
-                    if "updown" in lay:
+                    if has_updown:
                         h.incoming_write("1/0/1", DPTBinary(arg))
                 elif name == "bus_stop":
-                    if "stop" in lay:
+                    if has_stop:
                         h.incoming_write("1/0/2", DPTBinary(1))
-                    elif "step" in lay:
+                    elif has_step:
                         h.incoming_write("1/0/3", DPTBinary(1))
             except Exception as exc:  # noqa: BLE001
                 viol(f"cover-{name}-raises-{type(exc).__name__}", f"Cover.{name}({arg}) raised {exc!r}", {"exception": repr(exc)})
                 return
-            # query at the same clock reading, before and after the queue ran
-            if not check(cover, name + " +0 (before queue)"):
-                return
             await h.settle()
+            try:
+                est_after = cover.current_position()
+            except Exception as exc:  # noqa: BLE001
+                viol(f"cover-query-raises-{type(exc).__name__}", f"Cover query raised {exc!r} after {name}", {"exception": repr(exc)})
+                return
+            # ---- advance the reference --------------------------------------------------
+            if name in ("set_up", "set_down"):
+                if has_updown or has_pos:
+                    begin_travel(now, pre, 0 if name == "set_up" else 100, est_after)
+            elif name == "set_position":
+                if has_pos:
+                    begin_travel(now, pre, arg, est_after)
+                elif pre is None:
+                    if arg in (0, 100):
+                        begin_travel(now, pre, arg, est_after)
+                elif arg != pre:
+                    begin_travel(now, pre, arg, est_after)
+                    if supports_stop and arg not in (0, 100):
+                        m.stop_expected = Fraction(now) + m.travel_time(pre, arg)
+                        ctx.count("cover_auto_stop_scheduled")
+                        if was_moving:
+                            ctx.count("cover_command_while_travelling")
+                elif was_moving:
+                    # "already in position" although the cover travels elsewhere: nothing is sent; the statement does not say
+                    m.judged = False
+                if was_moving and m.judged and has_updown and not has_pos and arg in (0, 100):
+                    ctx.count("cover_end_position_command_while_auto_stop_pending")
+            elif name == "stop":
+                if supports_stop:
+                    m.explained.append(now)
+                    m.stop_expected = None
+                    if pre is not None and was_moving:
+                        m.rest(est_after)
+                        if abs(est_after - pre) > 0:
+                            m.judged = False
+                        seg["last"] = None
+            elif name == "bus_stop":
+                if has_stop or has_step:
+                    m.stop_expected = None
+                    if pre is not None and was_moving:
+                        m.rest(pre)
+                        seg["last"] = None
+            elif name == "bus_updown":
+                if has_updown:
+                    up = (arg == 0) != spec["invert_updown"]
+                    target = 0 if up else 100
+                    m.stop_expected = None
+                    if pre is not None and was_moving and m.cmd_dir == (-1 if up else 1):
+                        if m.T != target:
+                            # a long telegram in the direction the cover already travels toward an intermediate target:
+                            # the code keeps the old target, a real cover would go on to the end; not fixed by the statement
+                            m.judged = False
+                            ctx.count("cover_same_direction_bus_telegram_while_travelling_not_judged")
+                    else:
+                        begin_travel(now, pre, target, est_after)
+                        if not was_moving and pre is not None and pre != target:
+                            ctx.count("cover_bus_movement_from_rest")
+            elif name == "report":
+                seg["last"] = None
+                if pre is None or not was_moving:
+                    m.rest(arg)
+                else:
+                    m.L, m.t0 = arg, Fraction(now)
+                    if arg == m.T:
+                        m.rest(arg)
+                    elif m.overshoot() and est_after == m.T:
+                        # the report lies beyond the target in the travel direction: answering with the target at once is accepted
+                        ctx.count("cover_overshoot_report_taken_as_arrival")
+                        m.rest(m.T)
+                    if m.stop_expected is not None:
+                        m.judged = False  # the pending auto-stop keeps its old timing: where the estimate freezes is not fixed
             if not check(cover, name + " +0"):
                 return
-            if op["gap"] > 0:
-                await h.sleep_until(h.now() + op["gap"])
+            gap = op["gap"]
+            arr = m.arrival()
+            if isinstance(gap, str):
+                if arr is None or Fraction(h.now()) >= arr:
+                    gap = {"half": 0.5, "quarter": 0.25, "before_arrival": 0.0, "to_arrival": 1.0, "after_arrival": 2.0}[gap]
+                else:
+                    rem = float(arr - Fraction(h.now()))
+                    gap = {"half": q(rem / 2), "quarter": q(rem / 4), "before_arrival": max(0.0, rem - EPS), "to_arrival": rem,
+                           "after_arrival": rem + EPS}[gap]
+            if gap > 0:
+                await h.sleep_until(h.now() + gap)
                 await h.settle()
-                if not check(cover, f"{name} +{op['gap']}"):
+                if not check(cover, f"{name} +{gap}"):
                     return
-        # long quiet period: the estimate must have come to rest without errors
+        # long quiet period: every travel is over
         await h.sleep_until(h.now() + 2 * max(spec["tt_down"], spec["tt_up"]) + 5)
         await h.settle()
         check(cover, "end")
@@ -515,7 +736,7 @@ def run_cover(ctx, spec: dict) -> str | None:
     finally:
         h.close()
     if not found:
-        ctx.distinct(("cover", spec["layout"], "".join(o["op"][0] + o["op"][-1] for o in spec["ops"])))
+        ctx.distinct(("cover", spec["layout"], spec["pattern"], "".join(o["op"][0] + o["op"][-1] for o in spec["ops"])))
     return found[0] if found else None
 
 
@@ -527,7 +748,9 @@ def run(ctx):
         "layouts x invert flags. distinct = distinct command-kind strings (per layout for Cover)."
     )
     ctx.require("probe_at_float_predecessor_of_arrival", "probe_at_arrival_minus_2^-20", "probe_at_arrival_minus_2^-30", "queries", "advance_zero", "advance_positive", "q_mid_travel", "q_after_travel_time", "q_at_rest", "op_stop",
-                "op_update_position", "cover_queries", "cover_callbacks")
+                "op_update_position", "cover_queries", "cover_callbacks", "cover_queries_judged", "cover_queries_mid_travel",
+                "cover_queries_after_travel_time", "cover_auto_stop_scheduled", "cover_own_stop_telegrams", "cover_bus_movement_from_rest",
+                "cover_bus_move_after_travel_same", "cover_end_position_command_while_auto_stop_pending")
     n_tc = ctx.scale(6000, 15000 * 16)
     n_cover = ctx.scale(250, 600 * 16)
     mech_seen: dict[str, int] = {}
